@@ -22,10 +22,11 @@ var c16Ops = []string{
 	"B sees A fail (A keeps its peer object and retries)", "B sees A join again",
 	"A:message on m/x, the stream breaks for A while the event is in the pipe, B's handler of the old stream gets it only after A's next handshake was answered",
 	"A:message on m/x is written to the stream and lost with it (the stream breaks before B reads it)",
+	"A:message on m/x is written to the stream and lost with it, and the link A>B stays down",
 }
 
 // c16LateAlpha: the tree about events that the receiver gets late from an old stream.
-var c16LateAlpha = []int{20, 21, 4, 6, 7, 0, 1}
+var c16LateAlpha = []int{20, 21, 4, 6, 7, 0, 1, 22, 10}
 
 // c16MainN: the main tree uses the first c16MainN operations; the last two only occur in
 // the tree about a node that loses and re-creates its peer object.
@@ -184,7 +185,7 @@ func c16Apply(st *c16State, op int) bool {
 		}
 		st.bLostA = true
 		st.b.Fail("A")
-	case 20, 21:
+	case 20, 21, 22:
 		if st.down || st.held || st.aLostB || st.bLostA || !st.nw.HoldReceiver("A", "B") {
 			return false
 		}
@@ -196,7 +197,12 @@ func c16Apply(st *c16State, op int) bool {
 			st.emittedC = append(st.emittedC, "m/x="+pl)
 		}
 		vsched.Settle() // the event is in the pipe, B cannot read it yet
-		if op == 21 {
+		if op == 22 {
+			// an outage: events emitted from now on wait in the queue behind the lost one
+			st.down = true
+			st.nw.Down["A>B"] = true
+			st.nw.CutLosing("A", "B")
+		} else if op == 21 {
 			st.nw.CutLosing("A", "B")
 		} else {
 			st.nw.CutLate("A", "B")
